@@ -1,40 +1,28 @@
-"""Generates MANIFEST.json from the table below (kept in one place so that it stays valid)."""
-import json, os
+"""Generates MANIFEST.json from pyvc/claims.py (kept in one place so that it stays valid)."""
+import json, os, sys
 VERIF = os.path.dirname(os.path.dirname(os.path.abspath(__file__)))
-TECH = "contract-based deductive verification of the real source: own ast->VC generator (PyVC) + z3/cvc5; finite-by-nature spaces enumerated completely; executable contracts as bounded stand-ins (never counted)"
-CLAIMS = {
- "C02": ("proof", "Each of the 42 generated state functions is symbolically executed on the real source (loop-free, all matcher and look-ahead outcomes, EOF / non-EOF token, both error modes: a complete analysis); the resulting table is compared transition by transition with the five sibling parsers and shown bisimilar (accepted language, emitted rule nesting, tag attachment by look-ahead) to a transducer derived from gherkin.berp; lookahead_k and parse are proved against contracts with loop invariants and variants.", "DESIGN.md 5 C02",
-         "trusted: PyVC, z3; textual readers of the sibling parsers and of the .berp format; the reference construction; kind-exclusivity of the matcher (Layer A) assumed on ghost functions"),
- "C06": ("proof", "compile, _compile_rule, _compile_scenario and _compile_scenario_outline are proved (loop invariants against fold specifications) to emit exactly the pickles of the reference composition in document order: one per plain scenario, one per body row of each examples table with a header, with uri, language, name and source ids.", "DESIGN.md 5 C06", "trusted: PyVC, z3; str.replace laws; well-formedness of the AST (rectangular tables, one key per envelope) is a precondition"),
- "C07": ("proof", "Pickle steps are proved to be feature background steps, rule background steps, then own steps (none when the scenario has no steps), arguments copied cell by cell; the rule-level list is proved to be a new list (frame obligation on the feature-level list).", "DESIGN.md 5 C07", "as C06"),
- "C08": ("proof", "Pickle tags are proved to be feature + rule + scenario (+ examples) tags in order, each (astNodeId, name).", "DESIGN.md 5 C08", "as C06"),
- "C09": ("proof", "_interpolate is proved equal to the fold of literal replace_all over the header columns; every call site (name, step text, cells, doc string content and media type) and the absence of substitution for background steps are part of the proved outline contract.", "DESIGN.md 5 C09", "trusted: str.replace is literal, leftmost, non-overlapping replacement (uninterpreted replace_all with validated laws)"),
- "C10": ("proof", "The effective-type fold (and/but inherit, first is Unknown) is proved for plain scenarios and outlines with the same specification function; the type field is a string in every constructed pickle step.", "DESIGN.md 5 C10", "as C06; keyword category map of the matcher is Layer A"),
- "C12": ("proof", "split_table_cells is proved equal to the escape transducer (fold specification) for all rows by a loop invariant; table_cells is proved to trim blanks-not-LF around each cell and to report the column of the first non-blank character.", "DESIGN.md 5 C12", "trusted: PyVC, z3, regex-shape and strip axioms (validated against CPython on a bounded domain)"),
- "C18": ("proof", "read_token, lookahead_k (queue/stream preservation, run shape, termination) and parse (every line token handed to match_token once in order, then one EOF; accepted documents deliver exactly these to the builder) are proved; each state function path builds the token exactly once or reports it (finite-exhaustive over the extracted table); token listings equal the 46 reference listings.", "DESIGN.md 5 C18", "trusted: PyVC, z3; match_token's abstract contract is justified by the automaton obligations; scanner ghost view (line k = k-th segment) is Layer A"),
-}
-NA = {
- "C01": "under construction: safety/raises clauses exist for parser and compiler layers; matcher/builder/stream layers not yet under contract",
- "C03": "under construction (builder layer)", "C04": "under construction (line/column clauses partly proved: table cells; tags bounded)",
- "C05": "under construction (matcher layer)", "C11": "under construction", "C13": "under construction", "C14": "under construction",
- "C15": "under construction", "C16": "under construction", "C17": "under construction", "C19": "under construction",
-}
+sys.path.insert(0, VERIF)
+from pyvc.claims import CLAIMS, TECH
+NA = {}   # properties not claimed: id -> reason
 checks = []
-for pid, (cat, text, ref, note) in sorted(CLAIMS.items()):
+for pid, c in sorted(CLAIMS.items()):
+    if pid in NA:
+        continue
     checks.append({"property_id": pid, "quick_cmd": f"./check {pid} quick", "thorough_cmd": f"./check {pid} thorough",
-                   "evidence_file": f"/verif/evidence/{pid}.json", "replay_cmd_template": f"./check {pid} quick  # replay file {{path}} names the obligation and the failing input",
-                   "engine": "PyVC", "level_claimed": {"category": cat, "text": text, "design_ref": ref},
-                   "level_note": note, "technique": TECH})
+                   "evidence_file": f"/verif/evidence/{pid}.json",
+                   "replay_cmd_template": f"./check {pid} quick  # replay file {{path}} names the obligation and the failing input",
+                   "engine": "PyVC", "level_claimed": {"category": c["level"], "text": c["text"], "design_ref": c["ref"]},
+                   "level_note": c["note"], "technique": TECH})
 m = {
  "version": 1,
  "setup_cmd": "python3-vt -c \"import z3; print('z3', z3.get_version_string())\" && /venv/bin/python -c \"import sys; print(sys.version)\" && python3-vt -m compileall -q pyvc >/dev/null",
  "hooks": {"guard": "GHERKIN_VERIF", "enable": "no hook or instrumentation is compiled into cucumber/gherkin: contracts are sidecars under /verif/contracts, ghost state lives in the verifier, run-time stand-ins wrap the real functions from outside",
            "baseline_off_cmd": "cd /repo && /venv/bin/python -m pytest -ra -q -p no:cacheprovider --timeout=900 --continue-on-collection-errors",
            "source_commits": [], "add_only": True},
- "engines": [{"name": "PyVC", "path": "/verif/pyvc", "serves_properties": sorted(CLAIMS), "kind_free_text": TECH}],
+ "engines": [{"name": "PyVC", "path": "/verif/pyvc", "serves_properties": sorted(p for p in CLAIMS if p not in NA), "kind_free_text": TECH}],
  "checks": checks,
- "not_applicable": [{"property_id": k, "reason": v} for k, v in sorted(NA.items()) if k not in CLAIMS],
- "notes": "fix commits in /repo: 3c996c6 (C09/C01), 7d9d77b (C10/C17), 0f0f58d (C03), 6983334 (C12); see known_findings.json",
+ "not_applicable": [{"property_id": k, "reason": v} for k, v in sorted(NA.items())],
+ "notes": "fix commits in /repo: 3c996c6 (C09/C01), 7d9d77b (C10/C17), 0f0f58d (C03), 6983334 (C12); known finding D5 (C01) -- see known_findings.json. Exit codes of ./check: 0 held, 1 violation (VIOLATION line), 2 undecided, 3 checker error.",
 }
 json.dump(m, open(os.path.join(VERIF, "MANIFEST.json"), "w"), indent=1)
-print("claimed", sorted(CLAIMS), "not applicable", sorted(k for k in NA if k not in CLAIMS))
+print("claimed", [c["property_id"] for c in checks], "not applicable", sorted(NA))
